@@ -41,22 +41,32 @@ def gen_paths(rng, n):
     return out
 
 
-def gen_ops(rng, paths, n):
+def gen_ops(rng, paths, n, dangling=False):
+    """operation sequences under the discipline of dds itself: a path is committed to a key that has been
+    stored (unless `dangling`: the local store must cope with links to missing blobs too)"""
     ops = []
     v = [0]
+    stored = set()
     for _ in range(n):
         r = rng.random()
         k = rng.choice(KEYS)
         if r < 0.25:
             v[0] += 1
             ops.append(["store", k, None if rng.random() < 0.15 else v[0]])
+            stored.add(k)
         elif r < 0.4:
             ops.append(["has", k])
         elif r < 0.55:
             ops.append(["fetch", k])
         elif r < 0.78:
             ps = rng.sample(paths, min(len(paths), rng.choice([1, 1, 2, 3])))
-            ops.append(["sync", [["/" + "/".join(p), rng.choice(KEYS)] for p in ps]])
+            pool = KEYS if dangling else sorted(stored)
+            if not pool:
+                v[0] += 1
+                ops.append(["store", k, v[0]])
+                stored.add(k)
+                pool = [k]
+            ops.append(["sync", [["/" + "/".join(p), rng.choice(pool)] for p in ps]])
         elif r < 0.93:
             ps = [rng.choice(paths) for _ in range(rng.choice([1, 2]))]
             ops.append(["fetch_paths", ["/" + "/".join(p) for p in ps]])
@@ -109,7 +119,8 @@ def run(ctx):
         res.notes.append("DBFS fake not available: " + str(e))
     for i in range(nseq):
         paths = gen_paths(rng, rng.randint(1, 5))
-        ops = gen_ops(rng, paths, rng.randint(2, maxlen))
+        dangling = (i % 4 == 3)
+        ops = gen_ops(rng, paths, rng.randint(2, maxlen), dangling=dangling)
         if ctx.get("replay") and i == 0:
             rp = json.load(open(ctx["replay"]))
             inp = rp.get("violation", {}).get("input") or {}
@@ -118,7 +129,7 @@ def run(ctx):
         want = dict_model(ops)
         tmp = tempfile.mkdtemp(prefix="ddsverif_c08_")
         try:
-            kinds = ["memory", "local", "local_lru"] + (["dbfs"] if have_dbfs else [])
+            kinds = ["memory", "local", "local_lru"] + (["dbfs"] if (have_dbfs and not dangling) else [])
             for kind in kinds:
                 cap = rng.choice([1, 2, 10])
 
@@ -140,6 +151,8 @@ def run(ctx):
                         o = "unit"
                     else:
                         o = apply_op(st, op, DDSException)
+                        if kind == "dbfs" and op[0] == "fetch_paths" and o == "EXC:FileNotFoundError":
+                            o = "err"      # the fake's stand-in for the dbutils exception on a missing record
                     outs.append(o)
                     if bad is None and o != want[j]:
                         bad = j
